@@ -1,6 +1,6 @@
 //@ assume: siphash_block is an uninterpreted function of (keys, nonce) -- SipHash-2-4 itself is outside; CuckooParams keeps its real fields; Proof is reduced to its nonce vector; global::proofsize() is an uninterpreted constant in 1..=2^20
 //@ assume: T6 rewrites: `vec![x; n]` => helper vec_filled (n copies of x); every `Err(Error::Verification("<message>".to_owned()))` => `Err(Error::<Kind>)`, one abstract kind per message, so that the contract can say WHY the input checks fail; integer literal types made explicit; `for n in 0..size` loops get spliced invariants
-//@ assume: termination of the two cycle-following loops is NOT proved: exec_allows_no_decreases_clause (it follows from the circular lists, which is proved, and from the walk being injective)
+//@ assume: termination IS proved (no exec_allows_no_decreases_clause): the outer walk visits distinct edges (visited array), so it takes at most size + 1 steps; the inner list walk strictly descends
 //@ assume: decided here, for ANY proof size and any siphash outputs (no bound): CuckaroomContext::verify (Cuckaroom: a DIRECTED graph, edge n goes from node from[n] to node to[n]) never indexes out of range, and returns Ok ONLY IF the `size` edges form one simple directed cycle through all of them: starting from edge 0 and repeatedly moving to an edge that starts at the node where the current edge ends, the walk visits `size` DISTINCT edges and the last one ends where edge 0 starts; consecutive edges share their node; and no node is entered twice (the successor edge is a function of the node, so a repeated node would repeat an edge); plus nonces strictly ascending and within the edge mask. Every error except the xor pre-check carries its reason: wrong-length / edge-too-big / not-ascending only for that reason; 'dead end' only if no edge starts where some edge ends; 'branch' only if the walk from edge 0 runs into one of its own edges other than edge 0; 'too short' only if it closes after m != size edges -- each incompatible with one simple directed cycle through all edges. (Not decided: that the xor pre-check never fires on such a cycle.)
 //@ assume: 64-bit target
 //@ assume: assumed: u64::leading_zeros(x) >= 1 for x < 2^63 (std intrinsic; only used to show `1 + mask` cannot overflow)
@@ -165,7 +165,6 @@ proof fn lemma_nodes_distinct(from: Seq<u64>, to: Seq<u64>, path: Seq<int>)
 pub struct CuckaroomContext { pub params: CuckooParams }
 impl CuckaroomContext {
 //@ extract core/src/pow/cuckaroom.rs :: impl PoWContext for CuckaroomContext::verify
-//@   attr: #[verifier::exec_allows_no_decreases_clause]
 //@   sigrewrite `fn verify(&self, proof: &Proof)` => `pub fn verify(&self, proof: &Proof)`
 //@   rewrite `return Err(Error::Verification("wrong cycle length".to_owned()));` => `return Err(Error::WrongLen);`
 //@   rewrite `return Err(Error::Verification("edge too big".to_owned()));` => `return Err(Error::TooBig);`
@@ -217,6 +216,7 @@ impl CuckaroomContext {
 //@+        dwalk(from@, to@, path), path.len() == n, succ_is(from@, to@[path.last()], 0), from@.len() == size, to@.len() == size,
 //@+        forall|e: int| 0 <= e < size ==> #[trigger] from@[e] == efrom(self.params, proof.nonces@, e),
 //@+        forall|e: int| 0 <= e < size ==> #[trigger] to@[e] == eto(self.params, proof.nonces@, e),
+//@+    decreases size + 1 - n,
 //@   after `visited[i] = true;`:
 //@+    proof {
 //@+        let p2 = path.push(i as int);
@@ -246,6 +246,7 @@ impl CuckaroomContext {
 //@+        k == size ==> forall|e: int| 0 <= e < size ==> #[trigger] from@[e] != to@[i as int],
 //@+    ensures
 //@+        succ_is(from@, to@[i as int], k as int),
+//@+    decreases (if k >= size { 0int } else { k + 1 }),
 //@   before `k = prev[k];`:
 //@+    proof { let tv = to@[i as int];
 //@+            assert forall|e: int| 0 <= e < size && from@[e] == tv implies bk(from@, mask, e) == (tv & mask) as int by { }
